@@ -1447,7 +1447,9 @@ func runRespawn(c respawnCase, sec *vh.Section) {
 	}
 	if implSpins {
 		finding := ""
-		if c.Variant == "stranded" { // class: the pipe was deleted while a descriptor had Pos < LastKnwnPos
+		// class: the pipe was deleted while a descriptor had Pos < LastKnwnPos. Fixed by 69cc67a (startWorker tests the pipe's
+		// context): a recurrence is still tagged, so that the check reports "the defect is back"
+		if c.Variant == "stranded" {
 			finding = "F49"
 		}
 		res.SpecFail(vh.SpecFailure{Section: "respawn", Kind: "busy-loop", Input: c, Impl: fmt.Sprintf("%d workers started and finished in 1 s after the deletion, %.2f CPU cores busy (descriptor at deletion: %s)", respawns, cpu, desc),
